@@ -30,6 +30,7 @@ ASSUMPTIONS = [
     "OpenSSL-internal randomness (ephemeral keys, OAEP seeds) is real",
     "algorithm-generated header members (epk, p2s, p2c, iv, tag, kid, skid) may appear in addition to the requested ones",
     "refjose and OpenSSL / PyCryptodome primitives are trusted",
+    "don't-care zones: a sender key *set* (skid lookup) combined with recipients of non-1PU algorithms; any-recipient mode where the lone RSA key meets another recipient's RSA1_5 encrypted key (OpenSSL implicit rejection yields a garbage CEK, not an error)",
 ]
 COMPONENTS = {
     "real": ["joserfc jwe / jwk / drafts from the working tree", "OpenSSL via cryptography", "PyCryptodome"],
@@ -91,7 +92,8 @@ def _exchange(rng, index, ex, alg, enc, form, res, tr, mode):
     label = "%d.%d" % (index, ex)
     cell = c02.make_cell(rng.sub("cell"), alg, enc, form)
     if form == "general" and alg not in rjwe.DIRECT and rng.chance(0.3) and len(cell["rcpts"]) < 4 and \
-            not any(k in cell["protected"] for k in ("apu", "apv", "p2c", "p2s", "skid")):
+            not any(k in cell["protected"] for k in ("apu", "apv", "p2c", "p2s", "skid")) and \
+            not (cell["sconf"] is not None and cell["sconf"].kind == "set"):
         # up to four recipients
         extra_alg = rng.pick([a for a in W.RFC_ALGS if a not in rjwe.DIRECT])
         k, _ = W.keys_for(rng.sub("k4"), extra_alg, enc, None, {"kid": "r4"})
